@@ -88,13 +88,15 @@ def _(h):
 
 @claim('planar-exp-options')
 def _(h):
-    q = h.vec('q', 2, -1e3, 1e3)
-    S = Twist2.Revolute(q)
-    t1, t2 = h.angle('t1', -6.29, 6.29), h.angle('t2', -6.29, 6.29)
+    S = Twist2.Revolute([1, 2])          # concrete pole: the options, not the geometry, are the subject here
+    t1 = h.angle('t1', -6.29, 6.29)
     h.same('deg scalar', S.exp(h.deg(t1), units='deg').A, S.exp(t1).A)
-    T = S.exp([h.deg(t1), h.deg(t2)], units='deg')
+    T = S.exp([30.0, h.deg(t1)], units='deg')
     h.true('two values', len(T) == 2)
-    h.same('deg vector', T.data[1], S.exp(t2).A)
+    h.eq('deg vector, concrete element', T.data[0], S.exp(math.pi / 6).A, tol=1e-9)
+    h.same('deg vector, symbolic element', T.data[1], S.exp(t1).A)
+    T = S.exp([0.5, t1])
+    h.same('rad vector', T.data[1], S.exp(t1).A)
 
 
 @claim('revolute-pole-and-line')
